@@ -14,7 +14,7 @@ structure Phases (fx : Fixes) (f : File) (g : Grammar) where
   hts : termPhase fx f = .ok ts
   hxs : rulePhase fx f ts = .ok xs
   h1 : resolveInline (matchesOf f ts) xs.1.prods = .ok ps1
-  h2 : resolveRefs fx.stopRefErr ts.terms xs.1.nts ps1 = .ok ps2
+  h2 : resolveRefs fx.rflags ts.terms xs.1.nts ps1 = .ok ps2
   hg0 : assemble ts.terms xs.1.nts ps2 xs.2 = .ok g0
   hg : markReachable g0 = .ok g
 
